@@ -14,7 +14,7 @@ PROP = dict(
     theorems=['Fit.C08.C08_readN_refines', 'Fit.C08.C08_readN_sound', 'Fit.C08.C08_request_bound',
               'Fit.C08.C08_chunk_indep_partial', 'Fit.C08.C08_chunk_indep', 'Fit.C08.C08_full_false',
               'Fit.C08.C08_checkIntegrity_indep', 'Fit.C08.C08_reader_error', 'Fit.C08.C08_reader_error_decode',
-              'Fit.C08.C08_reader_error_loop_partial', 'Fit.C08.C08_reader_error_loop_false', 'Fit.C08.C08_raw_chunk_indep'],
+              'Fit.C08.C08_reader_error_loop', 'Fit.C08.C08_raw_chunk_indep'],
     families=[dict(name='readbuffer', spec=True), dict(name='dfrag', spec=True, prop=True)],
     trusted_base=STD_TRUST + [
         "the model of readBuffer.Reset/ReadN (FitModel/ReadBuffer.lean: backing array, len, cur, last, memmove into the reserved section, refill) is hand-written from decoder/readbuffer.go and tied by family readbuffer: the unexported type (hook decoder/verif_export.go) driven with arbitrary Reset/ReadN sequences × schedules × buffer sizes, every returned byte string and error compared",
